@@ -83,7 +83,7 @@ func (env *httpEnv) install(ch *characteristic.Characteristic) {
 	var shared [32]byte
 	if cg, err := crypto.NewSecureSessionFromSharedKey(shared); err == nil {
 		env.sess.SetCryptographer(cg)
-		env.sess.Decrypter()
+		responseWritten(env.ctx, env.conn)
 	}
 }
 
